@@ -43,14 +43,18 @@ class Violation(Exception):
 
 class Info:
     """What a passing case reports back to the runner."""
-    __slots__ = ('nontrivial', 'classes', 'key', 'rejected', 'evals')
+    __slots__ = ('nontrivial', 'classes', 'key', 'rejected', 'evals', 'subkeys', 'extra')
 
-    def __init__(self, nontrivial=False, classes=(), key=None, rejected=False, evals=1):
+    def __init__(self, nontrivial=False, classes=(), key=None, rejected=False, evals=1, subkeys=None, extra=None):
         self.nontrivial = nontrivial
         self.classes = list(classes)
         self.key = key
         self.rejected = rejected
         self.evals = evals
+        # subkeys: one entry per distinct non-trivial sub-execution of the case (e.g. crash runs, schedules)
+        self.subkeys = subkeys
+        # extra: numeric counters summed into the evidence
+        self.extra = extra or {}
 
 
 class Ctx:
